@@ -291,7 +291,7 @@ pub fn rotate_signers_counting(env: &Env, new_signers: &WeightedSigners, enforce
 
 /// construction with a *concrete* number `n` of initial signer sets (the sets themselves are
 /// abstract, of arbitrary size): one harness per n, so no unwinding bound is in play inside a case
-fn ctor_case(n: u32) {
+fn ctor_case(n: u32) -> bool {
     let env = Env::default();
     let _h = shim::fresh_host();
     let mut sets: soroban_sdk::Vec<WeightedSigners> = soroban_sdk::Vec::new(&env);
@@ -316,29 +316,34 @@ fn ctor_case(n: u32) {
             assert!(inst().post::<_, u64>(&DataKey::PreviousSignerRetention) == Some(retention), "OBL C03.ctor_retention_stored");
             assert!(inst().post::<_, BytesN<32>>(&DataKey::DomainSeparator) == Some(domain), "OBL C03.ctor_domain_stored");
             assert!(inst().post::<_, u64>(&DataKey::MinimumRotationDelay) == Some(min_delay), "OBL C03.ctor_delay_stored");
-            kani::cover!(true, "COVER c03_ctor ok");
+            true
         }
         Err(e) => {
             assert!(n == 0 || unsafe { ROTATE_FAIL_AT } < n, "OBL C03.ctor_err_only_if_empty_or_rotation_failed");
             assert!(n != 0 || e == ContractError::EmptySigners, "OBL C03.ctor_empty_code");
-            kani::cover!(true, "COVER c03_ctor err");
+            false
         }
     }
 }
 #[kani::proof]
 #[kani::stub(rotate_signers, rotate_signers_counting)]
 fn c03_initialize_auth_n0_bounded() {
-    ctor_case(0)
+    let ok = ctor_case(0);
+    kani::cover!(!ok, "COVER c03_ctor n0 err");
 }
 #[kani::proof]
 #[kani::stub(rotate_signers, rotate_signers_counting)]
 fn c03_initialize_auth_n1_bounded() {
-    ctor_case(1)
+    let ok = ctor_case(1);
+    kani::cover!(ok, "COVER c03_ctor n1 ok");
+    kani::cover!(!ok, "COVER c03_ctor n1 err");
 }
 #[kani::proof]
 #[kani::stub(rotate_signers, rotate_signers_counting)]
 fn c03_initialize_auth_n2_bounded() {
-    ctor_case(2)
+    let ok = ctor_case(2);
+    kani::cover!(ok, "COVER c03_ctor n2 ok");
+    kani::cover!(!ok, "COVER c03_ctor n2 err");
 }
 
 // ------------------------------------------------------------------------------------------------
